@@ -12,6 +12,7 @@ import CssVerif.Driver.NumOps
 import CssVerif.Driver.SelOps
 import CssVerif.Driver.UptoOps
 import CssVerif.Driver.ImportOps
+import CssVerif.Driver.LinkOps
 open CssVerif CssVerif.Proto
 
 def showTok (t : Tok) : String :=
@@ -54,9 +55,11 @@ def step (line : String) : String :=
   | ["dsplit", fx, toks] => UptoOps.opDsplit fx toks
   | ["stmts", fx, items] => UptoOps.opStmts fx items
   | ["encsel", o, h, e, p] => ImportOps.opEncSel o h e p
+  | ["encsel2", o, h1, e1, p1, h2, e2] => ImportOps.opEncSel2 o h1 e1 p1 h2 e2
   | ["fetchout", fx, k] => ImportOps.opFetchOut fx k
   | ["urlpath", b, r] => ImportOps.opUrlPath b r
   | ["rfcpath", m] => ImportOps.opRfcPath m
+  | ["tree", fx, n, hist] => LinkOps.run fx n hist
   | ["sel", ns, hex] => SelOps.opSel ns hex
   | ["num", fx, om, hex] => NumOps.opNum fx om hex
   | ["numval", hex] => NumOps.opVal hex
